@@ -207,6 +207,12 @@ class PoolWorld(object):
     def opened_conns(self):
         return [c for c in self.pool_conns() if not c.refused]
 
+    def capacity(self, conn):
+        """Request capacity of a pool connection, taken from outside the driver's own bookkeeping: what
+        the application configured (`Connection.max_in_flight`: "max concurrent requests allowed per
+        connection"), and never more than the number of stream ids the protocol version has."""
+        return min(conn.max_in_flight, 128 if self.proto < 3 else 32768)
+
     def current_conns(self):
         if self.legacy:
             return list(self.pool._connections)
@@ -271,6 +277,10 @@ class PoolWorld(object):
         if n > cap:
             self.problems.append(('capacity', 'more-streams-than-ids',
                                   '%d requests outstanding on connection #%d which has %d stream ids' % (n, vid, cap)))
+        elif not conn.is_control_connection and conn.endpoint.address == POOLHOST and n > self.capacity(conn):
+            self.problems.append(('capacity', 'more-requests-than-max-in-flight',
+                                  'the server has %d requests outstanding on connection #%d whose max_in_flight is %d'
+                                  % (n, vid, self.capacity(conn))))
         return True
 
     def _on_close(self, conn):
@@ -407,12 +417,13 @@ class PoolWorld(object):
         out = list(self.problems)
         cls = type(self.pool).__name__
         for c in self.opened_conns():
-            cap = c.max_request_id + 1
+            cap = self.capacity(c)
             if c.in_flight < 0:
                 out.append(('in-flight-negative', cls, 'connection #%d has in_flight %d' % (c.vid, c.in_flight)))
             if c.in_flight > cap:
                 out.append(('in-flight-above-capacity', cls,
-                            'connection #%d has in_flight %d with %d stream ids' % (c.vid, c.in_flight, cap)))
+                            'connection #%d has in_flight %d, its request capacity (max_in_flight) is %d'
+                            % (c.vid, c.in_flight, cap)))
         for f, _ in self.reqs:
             if f is not None:
                 for e in list(f._errors.values()):
@@ -625,7 +636,20 @@ def report(params, part, data, findings):
 
 
 def replay_history(params, hist):
-    part = explore.replay(PoolHarness, params, [tuple(e) for e in hist])
+    hist = [tuple(e) for e in hist]
+    # on a different tree a recorded event may no longer be possible (e.g. the task it runs is never queued)
+    h = PoolHarness(params)
+    for i in range(len(hist)):
+        st = explore.build(h, hist[:i])
+        try:
+            enabled = [e for e, _ in h.events(st)]
+        finally:
+            h.cleanup(st)
+        if hist[i] not in enabled:
+            print('this history is not possible on the current tree: after %r the event %r is not enabled (enabled: %r)'
+                  % (hist[:i], hist[i], enabled))
+            return False
+    part = explore.replay(PoolHarness, params, hist)
     for fp, what, _ in part.violations:
         print(fp, '::', what)
     return bool(part.violations)
@@ -648,7 +672,9 @@ def sched_run(params, prefix, part):
     """One execution under engine S.  params (besides the PoolWorld ones): prop, clauses, stage (events
     applied single-threaded before the threads start), threads (list of 'client' | 'shutdown' |
     'reactor' | 'worker'), orphan_tags (requests the reactor times out instead of answering),
-    max_fail (connects the worker's environment may refuse; a data choice charged like a preemption).
+    max_fail (connects the worker's environment may refuse; a data choice charged like a preemption),
+    shutdown_at_end (a pool that no thread shut down is shut down once the threads are gone, then the
+    post-condition is judged as after any other shutdown).
     Scheduling points: every virtual primitive and every source line of the pool class's methods."""
     from vt import sched
     p = dict(params)
@@ -670,11 +696,11 @@ def sched_run(params, prefix, part):
             st.note_state()
             if not flagged:
                 for c in st.opened_conns():
-                    if c.in_flight < 0 or c.in_flight > c.max_request_id + 1:
+                    if c.in_flight < 0 or c.in_flight > st.capacity(c):
                         flagged.append(1)
                         st.problems.append(('in-flight-negative' if c.in_flight < 0 else 'in-flight-above-capacity', cls,
-                                            'connection #%d has in_flight %d (%d stream ids) at %s %r'
-                                            % (c.vid, c.in_flight, c.max_request_id + 1, kind, info)))
+                                            'connection #%d has in_flight %d (request capacity %d) at %s %r'
+                                            % (c.vid, c.in_flight, st.capacity(c), kind, info)))
         s.monitor = monitor
 
         def reactor_actions():
@@ -764,7 +790,20 @@ def sched_run(params, prefix, part):
                                '%r in %s\n%s' % (t.exc, t.name, getattr(t, 'exc_tb', '')), data)
         # the threads are gone: judge, then let everything finish single-threaded and judge the end
         mid = st.outcome()
-        report(p, part, data, st.invariant_findings())
+        told = [0]
+
+        def report_invariants():
+            # whatever the hooks recorded since the last call + the clauses judged on the state as it is now
+            f = st.invariant_findings()
+            n = len(st.problems)
+            report(p, part, data, f[told[0]:])
+            told[0] = n
+
+        report_invariants()
+        if p.get('shutdown_at_end') and not st.pool.is_shutdown:
+            # no thread shuts this pool down: it is shut down now, with whatever the threads left pending
+            apply_event(st, ('shutdown',))
+            report_invariants()
         if st.pool.is_shutdown:
             report(p, part, data, st.borrow_after_shutdown_findings())
             report(p, part, data, st.end_findings('resp'))
@@ -772,7 +811,7 @@ def sched_run(params, prefix, part):
         else:
             st.drain('resp')
         st.note_state()
-        report(p, part, data, [f for f in st.invariant_findings() if f not in st.problems])
+        report_invariants()
         report(p, part, data, st.replacement_findings())
         part.outcome((mid, st.outcome()))
         if any(pt.chosen for pt in s.trace):
